@@ -1,0 +1,16 @@
+//go:build verif
+
+// Contracts for deductive verification (read by /verif/govc). Comment-only: this file adds no code.
+package keeper
+
+//@ store Shard      kv=order/Shard/value/ key=be64 val=github.com/SaoNetwork/sao/x/order/types.Shard
+//@ store Order      kv=order/Order/value/ key=be64 val=github.com/SaoNetwork/sao/x/order/types.Order
+//@ store ShardCount kv=order/ key=str:Shard/count/ raw
+//@ store OrderCount kv=order/ key=str:Order/count/ raw
+
+//@ accessor get (Keeper) GetShard Shard(id)
+//@ accessor set (Keeper) SetShard Shard(shard.Id) shard
+//@ accessor del (Keeper) RemoveShard Shard(id)
+//@ accessor get (Keeper) GetOrder Order(id)
+//@ accessor set (Keeper) SetOrder Order(order.Id) order
+//@ accessor del (Keeper) RemoveOrder Order(id)
